@@ -55,7 +55,8 @@ def rest_doc():
             lines += b
         return lines
     return st.fixed_dictionaries({"lines": st.lists(_block(), min_size=0, max_size=4).map(join),
-                                  "form": st.sampled_from(["leader", "leader", "mixed"]), "mpos": st.just(0), "rest": st.just(True)})
+                                  "form": st.sampled_from(["leader", "leader", "mixed"]), "mpos": st.just(0), "rest": st.just(True),
+                                  "close": st.sampled_from([None, None, "inline"])})
 
 
 def strategy(tier):
